@@ -62,6 +62,18 @@ def _structure(which, P):
                                                                              coords={'illumination': ['red', 'green']})}
         expect = lambda v: {'r': [v(p0), 0.5, v(p1)], 'n': ('xr', {'red': v(p2), 'green': 1.5})}
         order = [p0, p1, p2]
+    elif which == "wide":
+        # thirteen parameters: placeholders with two-digit indices
+        tree = {'parts': [{'r': P[3 * k], 'x': P[3 * k + 1], 'y': [P[3 * k + 2], 1.0 * k]} for k in range(4)], 'alpha': P[12]}
+        expect = lambda v: {'parts': [{'r': v(P[3 * k]), 'x': v(P[3 * k + 1]), 'y': [v(P[3 * k + 2]), 1.0 * k]} for k in range(4)], 'alpha': v(P[12])}
+        order = list(P[:13])
+    elif which == "two-shared-pairs":
+        # the parameters of a four-sphere collection in which spheres 0, 2 share one radius prior and spheres 1, 3 another
+        from holopy.scattering.scatterer import Sphere as _S, Spheres as _Ss
+        tree = _Ss([_S(n=1.5, r=(p0, p1)[k % 2], center=[1.0 * k, 0.0, p2 if k == 3 else 5.0]) for k in range(4)], warn=False).parameters
+        expect = lambda v: {'%d:%s' % (k, key): val for k in range(4)
+                            for key, val in (('n', 1.5), ('r', v((p0, p1)[k % 2])), ('center', [1.0 * k, 0.0, v(p2) if k == 3 else 5.0]))}
+        order = [p0, p1, p2]
     else:
         raise ValueError(which)
     return tree, expect, order
@@ -95,28 +107,48 @@ def _same(c, got, exp):
                                    MP + "Mapper.map_dictionary", MP + "Mapper.map_xarray", MP + "Mapper.map_transformed_prior",
                                    MP + "Mapper.get_parameter_index", MP + "Mapper.check_for_ties", MP + "Mapper.add_parameter",
                                    MP + "transformed_prior", MP + "make_xarray"],
-          bounded="six parameter-tree shapes (shared, transformed, complex, per-channel, nested, array-valued); values symbolic")
+          bounded="eight parameter-tree shapes (shared, transformed, complex, per-channel, nested, array-valued, wide with 13 parameters, "
+                  "two pairs of shared priors in a four-sphere collection); values symbolic")
 def map_roundtrip(c):
     """convert_to_map registers one parameter per distinct prior (ties by identity), and read_map puts each value at every
     place its prior was used, applies the transformations and leaves fixed values untouched"""
-    which = c.choice("structure", ["shared", "transformed", "complex", "per-channel", "nested", "array"])
-    P = _priors(3)
+    which = c.choice("structure", ["shared", "transformed", "complex", "per-channel", "nested", "array", "wide", "two-shared-pairs"])
+    P = _priors(13)
     tree, expect, order = _structure(which, P)
+    K = len(order)
     mapper = Mapper()
     m = c.call(mapper.convert_to_map, tree)
     pars = mapper.parameters
-    c.ensures("one-parameter-per-distinct-prior", len(pars) == 3 and all(any(q is p for q in pars) for p in P)
-              and len(set(id(q) for q in pars)) == 3)
-    c.ensures("names-unique-and-parallel", len(mapper.parameter_names) == 3 and len(set(mapper.parameter_names)) == 3)
-    vals = [c.real("v%d" % k, sample=(0.2, 3.0)) for k in range(3)]
-    by_prior = lambda p: vals[[i for i, q in enumerate(pars) if q is p][0]]
+    # a collection hands out copies of its members' priors (shared priors stay shared): identify a parameter by its (unique) bounds
+    same = (lambda q, p: q is p or (type(q) is type(p) and (q.lower_bound, q.upper_bound) == (p.lower_bound, p.upper_bound)))
+    c.ensures("one-parameter-per-distinct-prior", len(pars) == K and all(sum(1 for q in pars if same(q, p)) == 1 for p in order)
+              and len(set(id(q) for q in pars)) == K)
+    c.ensures("names-unique-and-parallel", len(mapper.parameter_names) == K and len(set(mapper.parameter_names)) == K)
+    vals = [c.real("v%d" % k, pos=(which == "two-shared-pairs"), sample=(0.2, 3.0)) for k in range(K)]
+    by_prior = lambda p: vals[[i for i, q in enumerate(pars) if same(q, p)][0]]
     rebuilt = c.call(read_map, m, vals)
     c.ensures("values-at-their-places", _same(c, rebuilt, expect(by_prior)))
     # reading the map with the priors themselves gives back an equivalent tree: guesses flow through transformations
     guesses = [p.guess for p in pars]
-    by_guess = lambda p: guesses[[i for i, q in enumerate(pars) if q is p][0]]
+    by_guess = lambda p: guesses[[i for i, q in enumerate(pars) if same(q, p)][0]]
     c.ensures("guesses-at-their-places", _same(c, c.call(read_map, m, guesses), expect(by_guess)))
     c.ensures("input-tree-untouched", all(isinstance(p, Uniform) for p in P))
+    if which == "two-shared-pairs":
+        # the same through a Model: names unique, name-keyed and list-ordered values give the same scatterer
+        from holopy.scattering.scatterer import Sphere as _S, Spheres as _Ss
+        from holopy.inference.model import ExactModel
+        from contracts.common import AbstractPointTheory
+        p0, p1, p2 = order
+        sc = _Ss([_S(n=1.5, r=(p0, p1)[k % 2], center=[1.0 * k, 0.0, p2 if k == 3 else 5.0]) for k in range(4)], warn=False)
+        model = ExactModel(sc, calc_func=lambda *a, **k: None, theory=AbstractPointTheory(), noise_sd=0.1)
+        names = list(model._parameter_names)
+        c.ensures("model-names-unique", len(names) == 3 and len(set(names)) == 3 and len(model.parameters) == 3 and len(model.initial_guess) == 3)
+        by_name = c.call(model.scatterer_from_parameters, dict(zip(names, vals)))
+        by_list = c.call(model.scatterer_from_parameters, list(vals))
+        c.ensures("name-keyed-equals-list-ordered", c.and_(*[c.eq(a.r, b.r) for a, b in zip(by_name.scatterers, by_list.scatterers)]))
+        mp_ = model._parameters
+        val_of = lambda p: vals[[i for i, q in enumerate(mp_) if same(q, p)][0]]
+        c.ensures("each-sphere-gets-its-own-priors-value", c.and_(*[c.eq(by_list.scatterers[k].r, val_of((p0, p1)[k % 2])) for k in range(4)]))
 
 
 @contract("C11", "ties_by_identity", [MP + "Mapper.check_for_ties", MP + "Mapper.get_parameter_index", MP + "Mapper.add_parameter"])
